@@ -23,7 +23,7 @@ RULE = ("cases = 1-D array (all arrays over a 3-letter alphabet up to length 5 q
         "up to length 60) x dtype (letters mapped to the dtype's extremes, NaN, -0.0, or to NEIGHBOURING values such as 2**63 / "
         "2**63+1, 1.0 / 1.0+eps); plus derived arrays (stepped slices, ufuncs of two run-length operands, concatenations) judged for "
         "canonical form; distinct = distinct (classes, dtype, letters, derivation); "
-        "every array is also converted through numpy with ANOTHER element type (np.asarray(r, dtype=...)) and compared with the converted cells; non-trivial = length >= 2")
+        "derived slices include steps of 2**31 .. 2**63-1; every array is also converted through numpy with ANOTHER element type (np.asarray(r, dtype=...)) and compared with the converted cells; non-trivial = length >= 2")
 EXHAUSTIVE = {"quick": False, "thorough": False}
 CORRESPONDENCE_ONLY = ["dtype tag", "np.asarray conversion"]
 ASSUMPTIONS = ["numpy .view() between same-width dtypes preserves bit patterns"]
